@@ -15,6 +15,7 @@ import (
 	"sort"
 	"strconv"
 	"strings"
+	"time"
 )
 
 type verifStop struct{ why string }
@@ -312,5 +313,42 @@ func vFP(sb *strings.Builder, v reflect.Value, seen map[uintptr]bool, depth int)
 		sb.WriteString(strconv.FormatFloat(v.Float(), 'g', -1, 64))
 	default:
 		sb.WriteString("<" + v.Kind().String() + ">")
+	}
+}
+
+// ---------------------------------------------------------------- threads
+// Under the symbolic executor each spawned body is executed alone in recording
+// mode and the schedule is a set of solver variables (DESIGN 2.8). Natively the
+// bodies really run concurrently, with a watchdog; the replay driver repeats
+// the case many times (and under -race for race findings).
+
+var verifThreads []func()
+
+func verifSpawn(f func()) { verifThreads = append(verifThreads, f) }
+
+func verifRunThreads(raceMsg, stuckMsg string) {
+	ths := verifThreads
+	verifThreads = nil
+	done := make(chan struct{}, len(ths))
+	start := make(chan struct{})
+	for _, f := range ths {
+		f := f
+		go func() {
+			defer func() { recover(); done <- struct{}{} }()
+			<-start
+			f()
+		}()
+	}
+	close(start)
+	timeout := time.After(500 * time.Millisecond)
+	for range ths {
+		select {
+		case <-done:
+		case <-timeout:
+			if stuckMsg != "" {
+				verifCur.Failures = append(verifCur.Failures, stuckMsg)
+			}
+			return
+		}
 	}
 }
